@@ -101,10 +101,12 @@ func VerifC19Waiter() *Session {
 }
 
 // VerifC19Wait runs the real (*Session).wait once with the given settings on a Session made by
-// VerifC19Waiter and reports whether it set the closing bit.  A panic of wait() is returned.
-func VerifC19Wait(s *Session, sleep time.Duration, jitter uint8, kill time.Time, work *cfg.WorkHours) (closing bool, pan interface{}) {
+// VerifC19Waiter (closing0 = the closing bit is already set) and reports the closing bit afterwards.  A panic of wait() is returned.
+func VerifC19Wait(s *Session, sleep time.Duration, jitter uint8, kill time.Time, work *cfg.WorkHours, closing0 bool) (closing bool, pan interface{}) {
 	s.sleep, s.jitter, s.kill, s.work = sleep, jitter, kill, work
-	s.state = 0
+	if s.state = 0; closing0 {
+		s.state.Set(stateClosing)
+	}
 	for len(s.wake) > 0 {
 		<-s.wake
 	}
